@@ -274,7 +274,7 @@ func changesFields() []FSpec {
 		{"Changes", "Changes", "scalar", []Variant{multi("", "hello (2.10-1) unstable; urgency=medium", ".", "  * New upstream release.", "  * Closes: #123456")}},
 		{"Checksums-Sha1", "ChecksumsSha1", "sha1", []Variant{files("sha1", s1, s2), files("sha1", s1)}},
 		{"Checksums-Sha256", "ChecksumsSha256", "sha256", []Variant{files("sha256", t1, t2), files("sha256", t1)}},
-		{"Files", "Files", "chfiles", []Variant{files("changes", h1, h2, h3), files("changes", h1), files("changes", h1, hBig, h4G)}},
+		{"Files", "Files", "chfiles", []Variant{files("changes", h1, h2, h3), files("changes", h1), files("changes", h1, hBig, h4G), files("changes", h2, h3)}},
 	}
 }
 
